@@ -206,6 +206,13 @@ func runC13(w *World, r *Report) {
 					r.Fail(VViolation, "idempotent", subj, inst, w.Pos(s.Pos), form)
 				}
 			}
+			// append onto a slice of the value: where its array has room the new bytes land in it
+			for _, c := range fs.Calls {
+				if c.Callee == nil && strings.HasPrefix(c.Text, "append-onto-field:") {
+					src := strings.TrimPrefix(c.Text, "append-onto-field:")
+					r.Fail(VViolation, "readonly", subj, src+"→append", w.Pos(c.Pos), "append onto "+src+", a slice of the value being sized or encoded: when its array has spare capacity the appended bytes are written into memory the value (or a neighbour carved from the same buffer) owns, so encoding changes what later encodings produce")
+				}
+			}
 			// external calls on receiver-rooted state
 			nro := 0
 			for _, c := range fs.Calls {
